@@ -11,6 +11,7 @@ import (
 	"fmt"
 	"os"
 	"reflect"
+	"strings"
 	"testing"
 
 	"github.com/New-JAMneration/JAM-Protocol/internal/zzverif/vlib"
@@ -19,6 +20,7 @@ import (
 type c13Case struct {
 	Type string    `json:"type"`
 	Devs []cgenDev `json:"devs,omitempty"`
+	Ext  bool      `json:"ext,omitempty"` // seed built with the extended integer domain
 	Mut  cgenMut   `json:"mut"`
 	Seed string    `json:"seed_hex,omitempty"` // informational
 }
@@ -166,7 +168,7 @@ func (c *c13Runner) runCase(unit uint64, seed cgenSeed, m cgenMut) {
 	} else {
 		detail += ", but the decoded value cannot be encoded: " + res.reErr
 	}
-	c.sink.Violation(site+".Decode", kind, key, detail, c13Case{Type: ct.Name, Devs: seed.devs, Mut: m, Seed: cgenHex(seed.enc)})
+	c.sink.Violation(site+".Decode", kind, key, detail, c13Case{Type: ct.Name, Devs: seed.devs, Ext: seed.ext, Mut: m, Seed: cgenHex(seed.enc)})
 }
 
 
@@ -186,6 +188,94 @@ func c13Units(r *vlib.Run, crashed map[string]string) []cgenSeed {
 			}
 		}
 		out = append(out, cgenSeedsSel(ct, k, 4096, !r.Thorough())...)
+		out = append(out, c13CompactTails(ct)...)
+	}
+	return out
+}
+
+// c13CompactTails: seeds whose LAST field on the wire is a compact (C.6) integer taking 2, 3, 4, 5, 7 or
+// 9 bytes, alone and preceded by another multi-byte compact integer (the maximum of its field), for
+// every type and every one-step shape variant of it (one more list element, a set optional, another
+// tag) that ends in a compact integer. Their mutation set is every proper prefix: a cut inside the
+// trailing integer must be rejected whatever the bytes read before it were.
+func c13CompactTails(ct *cgenType) []cgenSeed {
+	enc := func(v reflect.Value) []byte {
+		var e []byte
+		var err error
+		if p, _, _ := vlib.Guard(func() { e, err = ct.Enc(v.Addr()) }); p || err != nil {
+			return nil
+		}
+		return e
+	}
+	_, pts0 := cgenBuildX(ct.T, nil, ct.Ctx, true)
+	bases := [][]cgenDev{nil}
+	for _, p := range pts0 {
+		d := cgenDev{p.Path, 1}
+		if !cgenDevStructural(d) || strings.HasSuffix(p.Path, "~") {
+			continue
+		}
+		n := 2
+		if strings.HasSuffix(p.Path, "#tag") {
+			n = p.N
+		}
+		for o := 1; o < n; o++ {
+			bases = append(bases, []cgenDev{{p.Path, o}})
+		}
+	}
+	var out []cgenSeed
+	seen := map[string]bool{}
+	for _, base := range bases {
+		v0, pts := cgenBuildX(ct.T, base, ct.Ctx, true)
+		e0 := enc(v0)
+		if e0 == nil || len(e0) == 0 || len(e0) > 4096 {
+			continue
+		}
+		with := func(extra ...cgenDev) []cgenDev {
+			d := append([]cgenDev(nil), base...)
+			d = append(d, extra...)
+			// deviations are applied by path, the order in the list is irrelevant
+			return d
+		}
+		var compact []int
+		for j, p := range pts {
+			if !p.Int || p.N < 3 {
+				continue
+			}
+			v1, _ := cgenBuildX(ct.T, with(cgenDev{p.Path, 2}), ct.Ctx, true)
+			if e1 := enc(v1); e1 != nil && len(e1) != len(e0) {
+				compact = append(compact, j)
+			}
+		}
+		if len(compact) == 0 {
+			continue
+		}
+		q := compact[len(compact)-1]
+		vq, _ := cgenBuildX(ct.T, with(cgenDev{pts[q].Path, 2}), ct.Ctx, true)
+		if eq := enc(vq); eq == nil || !bytes.HasPrefix(eq, e0[:len(e0)-1]) {
+			continue // the last compact integer is not the last thing on the wire
+		}
+		prev := -1
+		if len(compact) > 1 {
+			prev = compact[len(compact)-2]
+		}
+		for oq := 1; oq < pts[q].N; oq++ {
+			for _, withPrev := range []bool{false, true} {
+				if withPrev && prev < 0 {
+					continue
+				}
+				devs := with(cgenDev{pts[q].Path, oq})
+				if withPrev {
+					devs = with(cgenDev{pts[prev].Path, 2}, cgenDev{pts[q].Path, oq})
+				}
+				v, _ := cgenBuildX(ct.T, devs, ct.Ctx, true)
+				e := enc(v)
+				if e == nil || len(e) > 4096 || seen[string(e)] {
+					continue
+				}
+				seen[string(e)] = true
+				out = append(out, cgenSeed{ct: ct, devs: devs, enc: e, structural: true, ext: true, prefixOnly: true})
+			}
+		}
 	}
 	return out
 }
@@ -203,13 +293,13 @@ func TestVerif_C13(t *testing.T) {
 	var rc c13Case
 	if r.IsReplay(&rc) {
 		ct := cgenByName[rc.Type]
-		v, _ := cgenBuild(ct.T, rc.Devs, ct.Ctx)
+		v, _ := cgenBuildX(ct.T, rc.Devs, ct.Ctx, rc.Ext)
 		enc, err := ct.Enc(v.Addr())
 		if err != nil {
 			t.Fatalf("replay: seed cannot be encoded: %v", err)
 		}
 		run := &c13Runner{sink: cgenDirectSink{r}, full: full}
-		run.runCase(0, cgenSeed{ct, rc.Devs, enc, 0, true}, rc.Mut)
+		run.runCase(0, cgenSeed{ct: ct, devs: rc.Devs, enc: enc, structural: true, ext: rc.Ext}, rc.Mut)
 		return
 	}
 
@@ -228,7 +318,7 @@ func TestVerif_C13(t *testing.T) {
 				continue
 			}
 			ord := uint64(0)
-			cgenMutations(seed.enc, full && seed.structural, func(m cgenMut) {
+			seed.Mutations(full, func(m cgenMut) {
 				if sink.Begin(seed.unit, ord) {
 					run.runCase(seed.unit, seed, m)
 				}
@@ -253,13 +343,13 @@ func TestVerif_C13(t *testing.T) {
 			seed.unit = uint64(u)
 			units = append(units, seed)
 			byUnit[seed.unit] = seed
-			planned += cgenMutCount(seed.enc, full && seed.structural)
+			planned += seed.MutCount(full)
 		}
 	}
 	if os.Getenv("C13_INPROC") != "" { // profiling aid: no isolation
 		run := &c13Runner{sink: cgenDirectSink{r}, full: full}
 		for _, seed := range units {
-			cgenMutations(seed.enc, full && seed.structural, func(m cgenMut) { run.runCase(seed.unit, seed, m) })
+			seed.Mutations(full, func(m cgenMut) { run.runCase(seed.unit, seed, m) })
 		}
 		return
 	}
@@ -270,7 +360,7 @@ func TestVerif_C13(t *testing.T) {
 			break
 		}
 		r.Sample(map[string]interface{}{"type": seed.ct.Name, "seed_deviations": seed.devs, "seed_encoding": cgenHex(seed.enc),
-			"mutations": cgenMutCount(seed.enc, full && seed.structural)})
+			"mutations": seed.MutCount(full)})
 	}
 	deaths := uint64(0)
 	skipped := cgenParentRun(r, t, "TestVerif_C13", units, nil, func(d cgenDeath) {
